@@ -46,6 +46,7 @@ fn main() {
         "conc-record" => iox::conc_record(&args),
         "params-replay" => stream::params_replay(&args),
         "match-record" => stream::match_record(&args),
+        "match-exhaustive" => stream::match_exhaustive(&args),
         "stream-record" => stream::record(&args),
         "hist-record" => hist::record(&args),
         other => {
